@@ -75,6 +75,48 @@ func (i *interpreter) bigGet(p *value) bigVal {
 		bv.sym = true
 	case []value:
 		words := make([]uint64, len(a))
+		anySymWord := false
+		for _, w := range a {
+			if _, ok := w.(sym); ok {
+				anySymWord = true
+			}
+		}
+		if anySymWord {
+			// a concrete magnitude whose words were updated under a guard
+			var t *Term
+			for k := len(a) - 1; k >= 0; k-- {
+				wt, _ := i.termOf(a[k])
+				if wt.W != 64 {
+					panic(engineError("big.Int word term of unexpected width"))
+				}
+				if (k+1)*64 > W {
+					if k*64 >= W {
+						if !wt.IsConst() || wt.Val != 0 {
+							panic(engineError(fmt.Sprintf("big.Int model width %d exceeded by a symbolic word", W)))
+						}
+						continue
+					}
+					hi := i.tt.Extract(wt, 63, W-k*64)
+					if !hi.IsConst() || hi.Val != 0 {
+						panic(engineError(fmt.Sprintf("big.Int model width %d exceeded by a symbolic word", W)))
+					}
+					wt = i.tt.Extract(wt, W-k*64-1, 0)
+				}
+				if t == nil {
+					t = wt
+				} else {
+					t = i.tt.Concat(t, wt)
+				}
+			}
+			if t == nil {
+				t = i.tt.Zero(W)
+			} else if t.W < W {
+				t = i.tt.ZExt(t, W)
+			}
+			bv.abs = t
+			bv.sym = true
+			return bv
+		}
 		for k, w := range a {
 			switch x := w.(type) {
 			case uint:
@@ -104,6 +146,43 @@ func (i *interpreter) bigGet(p *value) bigVal {
 	return bv
 }
 
+var bigReadOnly = map[string]bool{"Bit": true, "Uint64": true, "Int64": true, "Sign": true, "Cmp": true, "Bytes": true, "BitLen": true, "IsUint64": true}
+
+// bigResolve replaces symbolic-pointer operands (see itePtr) by a temporary
+// object holding the ite of the alternatives' values; a symbolic-pointer
+// destination is resolved by forking over the alternatives.
+func (i *interpreter) bigResolve(name string, args []value) []value {
+	var out []value
+	for k, a := range args {
+		sp, ok := a.(symPtr)
+		if !ok {
+			continue
+		}
+		if out == nil {
+			out = append([]value(nil), args...)
+		}
+		if k == 0 && !bigReadOnly[name] {
+			out[0] = i.pickAlt(sp)
+			continue
+		}
+		n := len(sp.alts)
+		last := i.bigGet(sp.alts[n-1].p)
+		neg, abs := last.neg, last.abs
+		for j := n - 2; j >= 0; j-- {
+			v := i.bigGet(sp.alts[j].p)
+			neg = i.tt.Ite(sp.alts[j].c, v.neg, neg)
+			abs = i.tt.Ite(sp.alts[j].c, v.abs, abs)
+		}
+		tmp := new(value)
+		*tmp = structure{i.mkval(neg, types.Bool), symNat{abs}}
+		out[k] = tmp
+	}
+	if out == nil {
+		return args
+	}
+	return out
+}
+
 func (i *interpreter) bigIsSym(p *value) bool {
 	if p == nil {
 		return false
@@ -115,8 +194,17 @@ func (i *interpreter) bigIsSym(p *value) bool {
 	if _, ok := st[0].(sym); ok {
 		return true
 	}
-	_, ok = st[1].(symNat)
-	return ok
+	if _, ok = st[1].(symNat); ok {
+		return true
+	}
+	if ws, isWords := st[1].([]value); isWords {
+		for _, w := range ws {
+			if _, ok := w.(sym); ok {
+				return true
+			}
+		}
+	}
+	return false
 }
 
 // bigPut stores a model value into *p.
@@ -161,6 +249,9 @@ func (i *interpreter) bigFromTC(p *value, t *Term, what string) {
 }
 
 func bigAnySym(i *interpreter, ps ...*value) bool {
+	if i.bigForce {
+		return true
+	}
 	for _, p := range ps {
 		if i.bigIsSym(p) {
 			return true
@@ -170,7 +261,25 @@ func bigAnySym(i *interpreter, ps ...*value) bool {
 }
 
 func init() {
-	reg := func(name string, f externalFn) { bigExternals["(*math/big.Int)."+name] = f }
+	reg := func(name string, f externalFn) {
+		bigExternals["(*math/big.Int)."+name] = func(fr *frame, args []value) value {
+			i := fr.i
+			args = i.bigResolve(name, args)
+			// an in-place update of an existing object under a guard must go
+			// through the model (guarded ite of the value); the real code
+			// would rebind the magnitude slice, which cannot be merged
+			if i.guard != nil && !i.guard.IsTrue() && !bigReadOnly[name] {
+				if z, ok := args[0].(*value); ok && z != nil {
+					if g, fresh := i.fresh[z]; !fresh || g != i.guard {
+						saved := i.bigForce
+						i.bigForce = true
+						defer func() { i.bigForce = saved }()
+					}
+				}
+			}
+			return f(fr, args)
+		}
+	}
 	reg("SetBit", func(fr *frame, args []value) value {
 		i := fr.i
 		z, x := args[0].(*value), args[1].(*value)
